@@ -990,7 +990,14 @@ impl Ctx {
                 (op.show(), format!("e={}", show_entity(e)))
             }
             Op::ReserveEntities { w, n } => {
-                let es: Vec<Entity> = self.world(*w).reserve_entities(*n as u32).collect();
+                let it = self.world(*w).reserve_entities(*n as u32);
+                let announced = (it.len(), it.size_hint());
+                let es: Vec<Entity> = it.collect();
+                assert!(
+                    announced == (es.len(), (es.len(), Some(es.len()))),
+                    "impl-inconsistency: reserve_entities({}) announced {:?} and yielded {}",
+                    n, announced, es.len()
+                );
                 self.push_handles(&es);
                 (op.show(), format!("es={}", show_entities(&es)))
             }
@@ -1588,6 +1595,33 @@ impl Gen {
         self.plan.push_back(Op::Obs { w });
     }
 
+    /// scenario: two worlds with the same number of archetypes but different sets behind the same indices,
+    /// one prepared query per shape used on them in turn: whatever a prepared query remembers about one
+    /// world must not be taken for knowledge about the other
+    fn plan_twin_worlds(&mut self) {
+        let h = HRef::Lit(u32::MAX, u32::MAX);
+        let (ka, kb) = *self.rng.pick(&[(1usize, 2usize), (2, 1), (1, 3), (10, 2)]).unwrap();
+        let spawn = |g: &mut Self, w: usize, k: usize| {
+            let b = g.bundle_for_types(&bundle_types(k));
+            g.plan.push_back(Op::Spawn { w, k: Some(k), b });
+        };
+        let qs = [0usize, 1, 4, 6, 9, 10, 2, 5];
+        spawn(self, 0, ka);
+        spawn(self, 1, kb);
+        for round in 0..2 {
+            for (i, path) in ["prepared", "prepared_view", "prepared_mut"].iter().enumerate() {
+                let q = qs[(self.rng.below(qs.len()) + i) % qs.len()];
+                for w in [0usize, 1, 0] {
+                    self.plan.push_back(Op::Query { w, q, path: path.to_string(), h: h.clone(), n: 2, es: vec![] });
+                }
+            }
+            if round == 0 {
+                spawn(self, 0, kb);
+                spawn(self, 1, ka);
+            }
+        }
+    }
+
     /// scenario: a world that grows past 32 archetypes (two entities walking up and down the lattice of
     /// component sets in different orders) while prepared queries are used every few steps: whatever is keyed
     /// or stamped by the number of archetypes has to keep up
@@ -1920,6 +1954,12 @@ impl Gen {
         }
         if self.profile == Profile::Containers && self.rng.chance(4) {
             self.plan_round_trip(ctx, w);
+            if let Some(op) = self.plan.pop_front() {
+                return Self::bind_last(op, ctx);
+            }
+        }
+        if self.profile == Profile::Query && nworlds > 1 && ctx.table.is_empty() && ctx.has_world(0) && ctx.has_world(1) && self.rng.chance(10) {
+            self.plan_twin_worlds();
             if let Some(op) = self.plan.pop_front() {
                 return Self::bind_last(op, ctx);
             }
